@@ -504,8 +504,15 @@ class Ctx:
             "wall_s": round(self.elapsed(), 2),
             "violations": len(self._violations),
         }
-        EVIDENCE_DIR.mkdir(exist_ok=True)
-        (EVIDENCE_DIR / f"{self.pid}.json").write_text(json.dumps(ev, indent=1, default=str) + "\n")
+        # `exhaustive` must be a boolean in the evidence schema; keep any descriptive value under another key
+        if not isinstance(self.cov.get("exhaustive"), bool):
+            self.cov["exhaustive_detail"] = self.cov.get("exhaustive")
+            self.cov["exhaustive"] = bool(self.cov.get("exhaustive"))
+        # runs against a private copy of the repository (AFV_REPO, used for seeded changes) or replays must not
+        # overwrite the evidence of the real tree
+        edir = EVIDENCE_DIR if (str(REPO) == "/repo" and not self.replay) else (SCRATCH / "evidence-alt")
+        edir.mkdir(parents=True, exist_ok=True)
+        (edir / f"{self.pid}.json").write_text(json.dumps(ev, indent=1, default=str) + "\n")
         for path, suffix in self._violations:
             print(f"VIOLATION property={self.pid} replay={path}{suffix}")
         sys.stdout.flush()
